@@ -7,6 +7,7 @@ import (
 	"strings"
 
 	"github.com/krotik/ecal/interpreter"
+	"github.com/krotik/ecal/stdlib"
 
 	"verif/internal/lang"
 )
@@ -139,6 +140,21 @@ func builtins() []string {
 	return out
 }
 
+// stdlibFuncs returns the functions of the standard library packages (Go
+// functions behind the adapter; C19 owns the bridge, here they are only called
+// with arbitrary arguments). The harness's own t.rec is left out.
+func stdlibFuncs() []string {
+	_, _, funcs := stdlib.GetStdlibSymbols()
+	var out []string
+	for _, f := range funcs {
+		if !strings.HasPrefix(f, "t.") {
+			out = append(out, f)
+		}
+	}
+	sort.Strings(out)
+	return out
+}
+
 // index kinds for container access / add / del (c = [1, 2, 3] has length 3)
 type ikind struct{ Name, Lit string }
 
@@ -147,7 +163,11 @@ var indexKinds = []ikind{
 	{"0.5", "0.5"}, {"1.5", "1.5"}, {"-0.5", "-0.5"}, {"-1.5", "-1.5"}, {"huge", hugeLit}, {"-huge", "-" + hugeLit}, {"big", "123456789"},
 	{`"1"`, `"1"`}, {`"-5"`, `"-5"`}, {`"1.5"`, `"1.5"`}, {`"a"`, `"a"`}, {`"k"`, `"k"`}, {`"zz"`, `"zz"`}, {`"a.b"`, `"a.b"`}, {`"k.n"`, `"k.n"`}, {`""`, `""`},
 	{"[0]", "[0]"}, {"{}", "{}"}, {"null", "null"}, {"true", "true"}, {"func", "func() {\n}"},
+	{"inf", "1 / 0"}, {"-inf", "-1 / 0"}, {"nan", "0 / 0"},
 }
+
+// numbers which only arithmetic produces
+var specials = []ikind{{"inf", "(1 / 0)"}, {"-inf", "(-1 / 0)"}, {"nan", "(0 / 0)"}, {"-0", "(0 * -1)"}}
 
 // a smaller set for the second level of nested accesses
 var indexKinds2 = []ikind{
